@@ -602,8 +602,15 @@ def r10_item_nesting(w):
     return r
 
 
+def r11_import_sort_guarded(w):
+    """= C19.R1: "every configuration" includes reordering of import items - the one reordering the printer performs keeps the meaning only behind its
+    guards (two items binding the same name must keep their order: the later binding wins; seed C01/5B)"""
+    from rules import c19
+    return _shared(c19.r1_guarded_sort(w), 'C01.R11')
+
+
 RULES = [r1_total_dispatch, r2_no_significant_child_dropped, r3_spelling, r4_order_and_disambiguation, r5_statement_boundaries, r6_token_separation, r7_hash_mode,
-         r8_comments_swallow_nothing, r9_significant_whitespace, r10_item_nesting]
+         r8_comments_swallow_nothing, r9_significant_whitespace, r10_item_nesting, r11_import_sort_guarded]
 for _f in RULES:
     _f.needs = ('core',)
 MATRIX_RULES = [r2_no_significant_child_dropped]
